@@ -27,7 +27,7 @@ const workerAS = 3 << 30 // address-space limit of library workers (bytes)
 // StepBudget is the per-task step budget of in-process runs: far above any
 // legitimate evaluation of generated inputs (the measured maximum is in the
 // evidence), far below what a runaway recursion needs to overflow the stack.
-const StepBudget = 400_000
+const StepBudget = 150_000
 
 var stdEnv = map[string]string{"VERIF_A": "va", "VERIF_B": "3"}
 
@@ -160,7 +160,11 @@ func addProbes(ev *harness.Evidence, p wire.Probes) {
 	ev.Count("probe.deleted_before_reached", p.DeletedSkipped)
 	ev.Count("probe.task_switches", p.Switches)
 	ev.Count("probe.steps", p.Steps)
-	ev.Max("max_steps_per_task", p.MaxSteps)
+	if p.MaxSteps <= StepBudget {
+		ev.Max("max_steps_per_task_within_budget", p.MaxSteps)
+	} else {
+		ev.Count("tasks_stopped_by_step_budget", 1)
+	}
 }
 
 func components(ev *harness.Evidence, t *build.Tree, real, stub []string) {
